@@ -6,7 +6,7 @@ from fvgen import case, parse_case, parse_out
 RULE = ("bufsize: every b in 0..4096 (quick) / 0..2^20+16 (thorough) plus values around 8192, 2^20, 2^32, 2^63 and the overflow arm; req_run: "
         "one critical pair of total size B-13-d (d in 0..3: inside the bound, must parse) and B-12..B-4 (outside: explored for information, "
         "verdict must merely agree with the model), placed at the start / middle / end of a Params record or across two/three records, "
-        "schedules greedy (reads that exactly fill the buffer), 1-byte and random, buffers 24..200 and 8192; plus GetValues management records whose BODY exceeds the buffer while every pair is tiny, before BeginRequest and between Params records. Non-trivial: pair at or beyond "
+        "schedules greedy (reads that exactly fill the buffer), 1-byte and random, buffers 24..512 and 8192, the critical pair also with both lengths in the 4-byte form, schedules that deliver all but the last 1..3 bytes at once; plus GetValues management records whose BODY exceeds the buffer while every pair is tiny, before BeginRequest and between Params records. Non-trivial: pair at or beyond "
         "B-13-3; distinct = distinct case lines.")
 ASSUMPTIONS = ["usize is 64 bits"]
 BOTH_PROFILES = True
@@ -32,9 +32,12 @@ def gen_cases(rng, tier):
     for b in [8191, 8192, 8193, 2 ** 20 - 1, 2 ** 20, 2 ** 20 + 1, 2 ** 20 + 7, 2 ** 20 + 9, 2 ** 24 + 3]:
         yield case("bufsize", [b]), ["bufsize"]
     for _ in range(250 if quick else 20000):
-        B = rng.choice([24, 25, 31, 32, 33, 40, 64, 100, 200, 8192])
+        B = rng.choice([24, 25, 31, 32, 33, 40, 64, 100, 200, 512, 8192])
         Be = eff(B)
         d = rng.choice([0, 0, 1, 2, 3, -1, -2, -3, -4, -5, -6, -7, -8, -9])
+        # the lengths of the critical pair in the 4-byte form (mandatory from 128 bytes on, legal below): the pair then occupies
+        # name + value + 8 bytes, which the documented "+ 13" covers
+        long_form = rng.random() < 0.4
         size = Be - 13 - d
         if size < 0:
             continue
@@ -45,9 +48,11 @@ def gen_cases(rng, tier):
         before = [(n[:max(0, (Be - 13) // 2)], v[:max(0, (Be - 13) // 2)]) for n, v in before]
         after = [(n[:max(0, (Be - 13) // 2)], v[:max(0, (Be - 13) // 2)]) for n, v in after]
         pairs = before + [crit] + after
-        payload = nv_all(pairs)
+        enc4 = lambda n: [0x80 | (n >> 24), (n >> 16) & 255, (n >> 8) & 255, n & 255]
+        crit_enc = (enc4(len(crit[0])) + enc4(len(crit[1])) + list(crit[0]) + list(crit[1])) if long_form else nv(*crit)
+        payload = nv_all(before) + crit_enc + nv_all(after)
         s = len(nv_all(before))
-        e = s + len(nv(*crit))
+        e = s + len(crit_enc)
         place = rng.choice(["start", "middle", "end", "across2", "across3", "own"])
         cuts = {"start": [s] if s else [], "middle": [], "end": [e], "own": [s, e],
                 "across2": [s, rng.randrange(s + 1, e) if e - s > 1 else s, e],
@@ -55,7 +60,9 @@ def gen_cases(rng, tier):
         recs = [begin(1, 1, 1)] + stream_records(PARAMS, 1, payload, cuts, pads=[rng.choice([0, 7, 255])])
         w = flat(recs) + rng.choice([[], record(STDIN, 1, [1, 2])])
         sched = schedule(rng, len(w), rng.choice(["greedy", "one", "random"]))
-        yield case("req_run", [B], [1], w, sched), ["bound", "inside" if d >= 0 else "outside", place]
+        if rng.random() < 0.2:
+            sched = [len(w) - rng.choice([1, 2, 3])] + [1] * 4          # everything but the last bytes in one go (as far as it fits)
+        yield case("req_run", [B], [1], w, sched), ["bound", "inside" if d >= 0 else "outside", place] + (["long-form"] if long_form else [])
 
 
 def gv_long(rng, Be):
@@ -129,7 +136,7 @@ def nontrivial(line, tags):
 
 
 def min_classes(tier):
-    return {"bufsize": 4000, "inside": 60, "outside": 100, "mgmt-long-body": 100, "full-buffer-handoff": 40}
+    return {"bufsize": 4000, "inside": 60, "outside": 100, "mgmt-long-body": 100, "full-buffer-handoff": 40, "long-form": 50}
 
 
 def oracle(line, impl_line):
